@@ -40,14 +40,14 @@ enum Commands {
         ///
         /// - 0: Uncompressed
         /// - 1: Fastest
-        /// - 2: Default
-        /// - 3: Better
-        /// - 4: Best
+        /// - 2: Default (not implemented yet)
+        /// - 3: Better (not implemented yet)
+        /// - 4: Best (not implemented yet)
         #[arg(
             short,
             long,
             value_name = "COMPRESSION_LEVEL",
-            default_value_t = 2,
+            default_value_t = 1,
             verbatim_doc_comment
         )]
         level: u8,
@@ -106,12 +106,9 @@ fn compress(input: PathBuf, output: PathBuf, level: u8) -> color_eyre::Result<()
     let compression_level: ruzstd::encoding::CompressionLevel = match level {
         0 => CompressionLevel::Uncompressed,
         1 => CompressionLevel::Fastest,
-        2 => CompressionLevel::Default,
-        3 => CompressionLevel::Better,
-        4 => CompressionLevel::Best,
-        _ => {
-            unimplemented!("unsupported compression level: {}", level);
-        }
+        // The library panics on levels it does not implement: refuse them before the output file is created
+        2..=4 => color_eyre::eyre::bail!("compression level {level} is not implemented yet"),
+        _ => color_eyre::eyre::bail!("unsupported compression level: {level}"),
     };
     let source_file = File::open(input).wrap_err("failed to open input file")?;
     let source_size = source_file.metadata()?.len() as usize;
